@@ -1,5 +1,6 @@
 """C20 - upload Copy/Move/Remove act on the control file last and stay in-directory."""
 import itertools
+import re
 import lib
 
 PLAINERR = (b"", b".", b"..")
@@ -377,6 +378,42 @@ def run(chk):
                 why = "a file outside the directories involved was touched"
         if why:
             chk.violate({"kind": "property", "case": lib.show_case(c), "impl": i[:1500], "explanation": why})
+    # the destination IS the upload's own directory (or leads back to it: a symbolic link to it, a directory of hard links to
+    # its files): whatever the call answers, no file of the upload loses its content, and after a nil error the handle
+    # points at a control file that is byte-identical to the original, next to byte-identical referenced files
+    sc = []
+    for kind in (b"dsc", b"changes"):
+        for op in (b"copy", b"move"):
+            for variant in (b"same", b"symlink", b"hardlinks"):
+                for _ in range(chk.n(3, 30)):
+                    files = []
+                    for k in range(chk.rng.randrange(1, 4)):
+                        files += [b"f%d_1.0.tar.gz" % k, bytes(chk.rng.randrange(256) for _ in range(chk.rng.randrange(1, 300)))]
+                    sc.append(("uploadself", [kind, op, variant] + files))
+    si = chk.run_impl(sc)
+    chk.record("destination-is-the-uploads-own-directory", sc, si, lambda c, r: r.startswith("ok"))
+    for c, r in zip(sc, si):
+        parts = r.split(" ", 3)
+        why = None
+        if len(parts) < 4 or parts[0] not in ("ok", "err"):
+            why = "the operation did not finish normally (%s)" % r[:60]
+        else:
+            body, text = parts[3].rsplit(" ", 1)
+            ents = {bytes.fromhex(n): bytes.fromhex(v) for n, v in re.findall(r"\( x([0-9a-f]*) x([0-9a-f]*) \)", body)}
+            orig = {c[1][i]: c[1][i + 1] for i in range(3, len(c[1]), 2)}
+            orig[b"x_1.0-1." + c[1][0]] = bytes.fromhex(text[1:])
+            for where, content in ents.items():
+                d, n = where.split(b"/", 1)
+                if n in orig and content != orig[n]:
+                    why = "the file %s of the upload lost its content (%d of %d bytes left)" % (where.decode(), len(content), len(orig[n]))
+            if parts[0] == "ok":
+                if parts[2] != "x" + orig[b"x_1.0-1." + c[1][0]].hex():
+                    why = why or "after a nil error the handle does not point at a byte-identical control file"
+                for n, content in orig.items():
+                    if not any(w.split(b"/", 1)[1] == n and v == content for w, v in ents.items()):
+                        why = why or "after a nil error the file %s is nowhere byte-identical to the original" % n.decode()
+        if why:
+            chk.violate({"kind": "property", "case": lib.show_case(c), "impl": r[:900], "explanation": why})
     chk.extra["history_scenarios"] = len(hist)
     chk.extra["scenarios"] = len(scs)
     chk.trusted.append("the OS file system (ext4/overlay under /var/tmp) and inotify as the observer of the order of appearance")
